@@ -305,6 +305,7 @@ def gen_value(rng, surrogates=True, nul=False, lone=False, lb=False, maxlen=12):
     return s
 
 
+WORD_UNI = [u for u in UNI if u not in ("\u00b2", "\u0660")] * 4 + ["\u00b2", "\u0660"]  # (superscript / non-ASCII digits at a word start are a known lexer finding)
 WORD_SAFE = "abcdefghijklmnopqrstuvwxyzABCDEFGHIJKLMNOPQRSTUVWXYZ0123456789_-./,:+%^=@~"
 
 
@@ -315,7 +316,7 @@ def gen_word(rng):
         r = rng.random()
         if r < 0.08:
             w = rng.choice(["-", "--", "-x", "--key=val", "a=b", "1e5x", "0x1g", "1.5.2", ".5", "5.", "07", "1_0", "=", "==", ":=", "->", "...", "//", "+=", "not", "if",
-                            "else", "in", "is", "lambda", "None", "True", "async", "match", "case", "type", "andy", "xor", "a.and", "x@y", "@", "?", "a?b", "a#b", "a\\b", "\\\\x"])
+                            "else", "in", "is", "lambda", "None", "True", "match", "case", "type", "andy", "xor", "a.and", "x@y", "@", "?", "a?b", "a#b", "a\\b", "\\\\x"])
         elif r < 0.16:
             w = rng.choice(DOLLARS[:19]) + rng.choice(["", "/x", ".y", "-z", ":", "="])
             if rng.random() < 0.4:
@@ -334,7 +335,7 @@ def gen_word(rng):
             w = rng.choice(["a", "--key=", "x.", "\u00e9"]) + q + inner + q + rng.choice(["", "d", "=e"])
         else:
             n = rng.randint(1, 9)
-            w = "".join(rng.choice(WORD_SAFE) if rng.random() < 0.85 else rng.choice(UNI + ["\u2192", "\u20ac", "\xa0", "\u3000", "\\", "#", "?"]) for _ in range(n))
+            w = "".join(rng.choice(WORD_SAFE) if rng.random() < 0.85 else rng.choice(WORD_UNI + ["\u2192", "\u20ac", "\xa0", "\u3000", "\\", "#", "?"]) for _ in range(n))
         if word_ok(w) and not (w.endswith("?") and rng.random() < 0.5):
             return w
 
@@ -376,9 +377,15 @@ def macro_ok(t, closer=None):
     depth = []
     pairs = {")": "(", "]": "[", "}": "{"}
     inq = None
+    esc = False
     for c in t:
         if inq:
-            if c == inq:
+            # (the text is still TOKENIZED: inside a quoted stretch a backslash protects the next character)
+            if esc:
+                esc = False
+            elif c == "\\":
+                esc = True
+            elif c == inq:
                 inq = None
             continue
         if c in "'\"":
@@ -390,9 +397,7 @@ def macro_ok(t, closer=None):
                 return False
     if depth or inq:
         return False
-    return not (closer and closer in t and False)
-
-        return w
+    return True
 
 
 MACRO_CHARS = "abcxyz019 \t\t  $*~'\"\\|&;!=,.:-_@#%^?"  # (no backtick: a PAIR of them anywhere on the line is the regex-glob syntax)
@@ -508,7 +513,9 @@ def render_lit(b, a):
             if ok and (a["lb_raw"] or not any(c in LB for c in v)):
                 p["body"] = list(v)
                 continue
-            raw = a["raw"] = False  # this value cannot be written raw: write it as an ordinary literal
+            raw = a["raw"] = False  # this value cannot be written raw: write it as an ordinary literal …
+            # … which is expanded: no NUL / lone surrogates there (os.path.expanduser's pwd lookup raises on them)
+            p["value"] = [c for c in v if c != 0 and not (0xD800 <= c <= 0xDFFF and not 0xDC80 <= c <= 0xDCFF)]
     for p in a["parts"]:
         if p["p"] != "t" or "body" in p and raw:
             continue
@@ -588,8 +595,8 @@ def gen_atom(b, popen_ok, kinds):
                 v = gen_pyval(rng, allow_lone=False, nul=False)
                 if v[0] == "gen" or (v[0] in ("list", "tuple") and len(v[1]) > 3):
                     v = ["str", codes(gen_value(rng, lone=False))]
-                if rng.random() < 0.5:
-                    v = ["str", codes(rng.choice(["x", "y z", "", "1", "\u00e9", "a\\", "-"]))]  # keep most combinations clean
+                if rng.random() < 0.75:
+                    v = ["str", codes(rng.choice(["x", "y z", "", "1", "\u00e9", "a\\", "-", "a b  c", "'q'", "\U0001d11e"]))]  # keep most combinations clean
                 parts.append(["i", v, "var" if rng.random() < 0.6 else "inline"])
                 have_inj = True
             else:
@@ -701,7 +708,7 @@ def build_source(b, cmd, atoms, bang, form, sep=None):
         return any(chr(c) in line for c in LB)
 
     for a in atoms:
-        line += sep or rng.choice([" ", " ", " ", "  ", "\t", "   "])
+        line += sep or rng.choice([" ", " ", " ", " ", " ", "  ", "\t", "   "])
         if a["k"] == "macroat":
             a["lbb"] = lbb()
         if a["k"] == "adj":
@@ -721,7 +728,7 @@ def build_source(b, cmd, atoms, bang, form, sep=None):
     if bang is not None:
         line += rng.choice(["", " "]) + "!"
         bang_lbb = lbb()
-        line += (" " if bang.startswith("=") else "") + bang  # `!=` is one operator token, not a macro `!`
+        line += (" " if bang[:1] in ("=", "(", "[") else "") + bang  # `!=`, `!(`, `![` are single tokens, not a macro `!`
     return line + cl, bang_lbb
 
 
@@ -729,15 +736,13 @@ def protect(s):
     return "".join(PROTECT.get(c, c) for c in s)
 
 
-def protect_val(v):
+def protect_val(v, top=True):
     k = v[0]
     if k == "str":
         return ["str", codes(protect(uncodes(v[1])))]
-    if k in ("list", "tuple", "gen"):
-        return [k, [protect_val(x) for x in v[1]]]
-    if k == "bytes":
-        return ["str", codes(protect(os.fsdecode(bytes(v[1]))))]
-    return ["str", codes(protect(str(pyval_obj(v))))]
+    if k in ("list", "tuple", "gen") and top:
+        return [k, [protect_val(x, top=False) for x in v[1]]]
+    return ["str", codes(protect(item_expected(pyval_obj(v))))]
 
 
 def protected_atoms(atoms):
@@ -780,6 +785,45 @@ def macro_texts(atoms, bang):
     return out + ([bang] if bang is not None else [])
 
 
+def python_statement(src):
+    """is this bare line, as it stands, valid Python (`rec = 'x'`, `rec :d`, `rec ,`, `rec -x` …)?  Whether such a line is run as Python
+    or as a command is decided by the names in scope — that decision belongs to C02 / C03, not to this property"""
+    import ast
+    import warnings
+
+    try:
+        with warnings.catch_warnings():
+            warnings.simplefilter("ignore")
+            tree = ast.parse(src)
+    except (SyntaxError, ValueError):
+        return False
+    return bool(tree.body)
+
+
+NONIDENT_WORDCHAR = re.compile(r"(?![0-9])\w")
+
+
+def degarble(text):
+    """replace every character that matches \\w but cannot start an identifier (and is no ASCII digit) by `z`"""
+    return "".join("z" if NONIDENT_WORDCHAR.match(c) and not c.isidentifier() else c for c in text)
+
+
+def degarbled_atoms(atoms):
+    out = []
+    for a in atoms:
+        if a["k"] in ("word", "macroat"):
+            out.append(dict(a, t=codes(degarble(uncodes(a["t"])))))
+        elif a["k"] == "adj":
+            out.append(dict(a, parts=[[p[0], codes(degarble(uncodes(p[1])))] + p[2:] if p[0] in ("t", "m") else p for p in a["parts"]]))
+        else:
+            out.append(a)
+    return out
+
+
+def word_texts(atoms):
+    return [uncodes(a["t"]) for a in atoms if a["k"] == "word"] + [uncodes(p[1]) for a in atoms if a["k"] == "adj" for p in a["parts"] if p[0] == "t"]
+
+
 def ws_errortoken(src):
     """does xonsh's tokenizer turn white space of this source into ERRORTOKENs the lexer mishandles — a TAB / FF, or two spaces in a
     row (it does so, one character at a time, when the next character is one it has no token for: a lone `$`, a non-identifier
@@ -790,7 +834,8 @@ def ws_errortoken(src):
 
     prev_space_end = None
     try:
-        for t in tokenize(io.BytesIO(src.encode("utf-8", "surrogatepass")).readline, tolerant=True, is_subproc=True):
+        # (not tolerant=True: xonsh's tokenizer loops for ever at EOF inside an unterminated f-string in tolerant mode)
+        for t in tokenize(io.BytesIO((src + "\n").encode("utf-8", "surrogatepass")).readline, tolerant=False, is_subproc=True):
             if t.type == ERRORTOKEN and t.string in ("\t", "\f"):
                 return True
             if t.type == ERRORTOKEN and t.string == " ":
@@ -799,7 +844,7 @@ def ws_errortoken(src):
                 prev_space_end = t.end
             else:
                 prev_space_end = None
-    except Exception:  # noqa: BLE001
+    except Exception:  # noqa: BLE001  (TokenError at an unterminated literal: nothing found up to there)
         return False
     return False
 
@@ -824,7 +869,16 @@ def extend_atom(a):
 def run_command(ctx, ses, stream, idx, atoms, bang, cmd, form, note=None, sep=None):
     """write the command, run it for real, compare with the Lean model (correspondence) and with what was written (property)"""
     b = Builder(ctx, ses)
+    if sep is None:
+        sep = ctx.rng.choice([None, None, " ", " "])
+    state = ctx.rng.getstate()
     src, bang_lbb = build_source(b, cmd, atoms, bang, form, sep=sep)
+    if form == "bare" and python_statement(src):
+        # the line is also valid Python (the Python / subprocess decision is C02 / C03's): write the command explicitly
+        form = "!["
+        ctx.rng.setstate(state)
+        b = Builder(ctx, ses)
+        src, bang_lbb = build_source(b, cmd, atoms, bang, form, sep=sep)
     blob = "\x00".join(atom_blob(a) for a in atoms) + "\x00" + (bang or "")
     ors = [atom_oracle(a) for a in atoms]
     res = ses.run(src + "\n", b.glbs)
@@ -868,16 +922,16 @@ def run_command(ctx, ses, stream, idx, atoms, bang, cmd, form, note=None, sep=No
         w = want if w is None else w
         return w is None or argv == w
 
-    def rerun(form2, sep2):
-        """does the same command, written with form2 / sep2, behave as the property demands (or, where the faithful model says the
-        parser crashes — a different, modelled finding — crash like that)?"""
-        b2 = Builder(ctx, ses)
-        src2, _ = build_source(b2, cmd, atoms, bang, form2, sep=sep2)
-        r2 = ses.run(src2 + "\n", b2.glbs)
-        if m_mine == "crash":
-            return r2[0] == "exc" and r2[1] == "AttributeError"
-        got2 = (r2[2] if cmd == "xvargv" else r2[1]) if r2[0] == "ok" else []
-        return len(got2) == 1 and ok(got2[0], compute_want()[0])
+    def rerun(form2, sep2, atoms2=None, bang2=False):
+        """does the same command, written with form2 / sep2 (/ atoms2), have no UNEXPLAINED failure (it may still show other known
+        findings: removing this trigger must explain the rest)?"""
+        import copy
+
+        if getattr(ctx, "depth", 0) >= 2:
+            return False
+        q = Quiet(ctx)
+        run_command(q, ses, "variant", 0, copy.deepcopy(atoms if atoms2 is None else atoms2), bang if bang2 is False else bang2, cmd, form2, sep=sep2)
+        return not any(f["key"] is None for f in q.spec_failures) and not q.disagreements
 
     def fail(observed, why):
         key = None
@@ -899,8 +953,8 @@ def run_command(ctx, ses, stream, idx, atoms, bang, cmd, form, note=None, sep=No
             # right, the execer's line rewriting is at fault
             if rerun("![", " "):
                 key = "bare-line-splitlines-breaks-literal" if source_has_raw(src, LB) else "bare-line-continuation-inside-literal"
-        if key is None and form == "bare" and any(a["k"] == "word" and re.match(r"@\w+#", uncodes(a["t"])) for a in atoms) and rerun("![", " "):
-            key = "bare-line-word-at-name-hash"
+        if key is None and form == "bare" and any("#" in t[1:] for t in word_texts(atoms) + macro_texts(atoms, bang)) and rerun("![", " "):
+            key = "bare-line-hash-inside-word"
         if key is None and form == "bare" and src.rstrip(" \t")[-1:].isspace() and rerun("![", " "):
             key = "bare-line-trailing-unicode-space"
         if key is None and form == "bare" and any(re.search(r";|&&|\|\|", t) for t in macro_texts(atoms, bang)) and rerun("![", " "):
@@ -908,14 +962,32 @@ def run_command(ctx, ses, stream, idx, atoms, bang, cmd, form, note=None, sep=No
         if key is None and ws_errortoken(src) and rerun(form, " "):
             # the same command with spaces for the tabs delivers what is wanted, and the tokenizer did turn a tab into an ERRORTOKEN
             key = "whitespace-run-before-untokenizable-char"
-        if key is None and (observed.get("exception") or (argv is not None and any("Unexpected token: TokenInfo(" in x for x in argv))) and lexer_unexpected(src):
+        if key is None:
+            import copy
+
+            hit, atoms2 = False, []
+            for a in atoms:
+                if a["k"] == "lit" and a["raw"] and a["f"] and any(p["p"] == "t" and re.search(r"\\[\n" + QUOTES[a["q"]][0] + "]", uncodes(p["body"])) for p in a["parts"]):
+                    a2 = copy.deepcopy(a)
+                    a2["raw"], a2["prefix"] = False, "f"
+                    for p in a2["parts"]:
+                        p.pop("body", None)
+                    a2 = _rerender(ctx, a2)
+                    hit = True
+                    atoms2.append(a2)
+                else:
+                    atoms2.append(a)
+            if hit and rerun(form, sep, atoms2):
+                key = "raw-fstring-backslash-handling"
+        if key is None and lexer_unexpected(src) and rerun(form, sep, degarbled_atoms(atoms), None if bang is None else degarble(bang)):
+            # the same command with those characters replaced by a letter has no unexplained failure
             key = "word-with-nonidentifier-wordchar-garbled"
         ctx.spec_failure(case, observed, why, key)
         return key
 
     outside_model = ("bare-line-splitlines-breaks-literal", "bare-line-continuation-inside-literal", "whitespace-run-before-untokenizable-char",
-                     "bare-line-macro-text-chain-token", "bare-line-word-at-name-hash", "bare-line-trailing-unicode-space",
-                     "word-with-nonidentifier-wordchar-garbled")
+                     "bare-line-macro-text-chain-token", "bare-line-hash-inside-word", "bare-line-trailing-unicode-space",
+                     "word-with-nonidentifier-wordchar-garbled", "raw-fstring-backslash-handling")
     if res[0] != "ok":
         key = fail({"exception": res[1], "message": res[2]}, "a well-formed command was not run: its arguments never arrived")
         if m_mine != "crash" and key not in outside_model:
@@ -947,6 +1019,7 @@ class Quiet:
 
     def __init__(self, ctx):
         self.driver, self.rng = ctx.driver, ctx.rng
+        self.depth = getattr(ctx, "depth", 0) + 1
         self.spec_failures, self.disagreements = [], []
 
     def count(self, *a, **k):
@@ -1096,9 +1169,11 @@ def gen_command(ctx, ses, popen_ok, kinds, max_atoms=5, allow_bang=True):
     if allow_bang and rng.random() < 0.22:
         bang = gen_macro_text(rng, "]" if form in ("![", "$[") else (")" if form == "$(" else None))
         # a subprocess macro needs at least the command; the text must not close the enclosing bracket
-        if form != "bare" and re.search(r"[\[\](){}]", bang):
+        while form != "bare" and re.search(r"[\[\](){}]", bang):
             bang = re.sub(r"[\[\](){}]", "", bang)
-    if bang is not None and any(extend_atom(a) for a in atoms) and rng.random() < 0.85:
+            if not macro_ok(bang):
+                bang = gen_macro_text(rng, None)
+    if bang is not None and any(extend_atom(a) for a in atoms) and rng.random() < 0.95:
         bang = None  # (a macro tail after an extend atom is the known parser crash: keep a few, not hundreds)
     if bang is None and not atoms:
         atoms = [gen_atom(b, popen_ok, kinds)]
@@ -1140,11 +1215,14 @@ def stream_child(ctx, ses, n, name="real-child"):
             atoms, bang, form = gen_command(ctx, ses, True, KINDS_MAIN)
             if fs_ok("\x00".join(atom_blob(a) for a in atoms)):
                 break
-        g1 = run_command(ctx, ses, name, (i, "alias"), atoms, bang, "rec", form)
-        g2 = run_command(ctx, ses, name, (i, "child"), atoms, bang, "xvargv", form)
-        if g1 is not None and g2 is not None and [x.replace("\0", "\\0") for x in g1] != g2:
+        before = len(ctx.spec_failures)
+        sep = ctx.rng.choice([None, " "])
+        g1 = run_command(ctx, ses, name, (i, "alias"), atoms, bang, "rec", form, sep=sep)
+        g2 = run_command(ctx, ses, name, (i, "child"), atoms, bang, "xvargv", form, sep=sep)
+        # (when either run already failed the property — a known finding, say — the two sources differ by more than the command name)
+        if len(ctx.spec_failures) == before and g1 is not None and g2 is not None and [x.replace("\0", "\\0") for x in g1] != g2:
             b = Builder(ctx, ses)
-            ctx.spec_failure({"stream": name, "source": build_source(b, "rec|xvargv", atoms, bang, form), "atoms": atoms, "bang": bang},
+            ctx.spec_failure({"stream": name, "source": build_source(b, "rec|xvargv", atoms, bang, form, sep=" ")[0], "cmd": "xvargv", "form": form, "atoms": atoms, "bang": bang},
                              {"alias": g1, "child": g2}, "a callable alias and a real child process observed different argv", None)
 
 
@@ -1358,12 +1436,12 @@ def run(ctx):
     ses = Session()
     try:
         replay_known(ctx, ses)
-        stream_literals(ctx, ctx.n(6000, 150000))
-        stream_expand(ctx, ses, ctx.n(2500, 60000))
-        stream_helpers(ctx, ses, ctx.n(800, 20000))
-        stream_commands(ctx, ses, ctx.n(2600, 45000))
-        stream_child(ctx, ses, ctx.n(220, 4000))
-        stream_known_mechanisms(ctx, ses, ctx.n(120, 1500))
+        stream_literals(ctx, ctx.n(20000, 300000))
+        stream_expand(ctx, ses, ctx.n(8000, 120000))
+        stream_helpers(ctx, ses, ctx.n(2500, 30000))
+        stream_commands(ctx, ses, ctx.n(7000, 90000))
+        stream_child(ctx, ses, ctx.n(500, 7000))
+        stream_known_mechanisms(ctx, ses, ctx.n(150, 2000))
     finally:
         ses.close()
 
